@@ -98,6 +98,36 @@ def sparsify(b, rng):
     return out
 
 
+FIXTURES = os.path.join(V.VERIF, "fixtures")
+
+
+def fixture_behaviours(kind, rng):
+    """the node starts on a store file written by an earlier run of the code (fixtures/*.sqlite, generated once with the
+    repository at the commit named in fixtures/README.md): everything it serves from it, and everything it adds to it,
+    must be what a store written from scratch by the current code holds (upgrade compatibility of the on-disk format)"""
+    out = []
+    for f in sorted(os.listdir(FIXTURES)) if os.path.isdir(FIXTURES) else []:
+        if not f.endswith(".json"):
+            continue
+        m = json.load(open(os.path.join(FIXTURES, f)))
+        if m["kind"] != kind:
+            continue
+        base = dict(kind=kind, seed=m["seed"], fixture=os.path.join(FIXTURES, m["file"]), preload=len(m["ops"]))
+        last = max(o["num"] for o in m["ops"])
+        nleaf = sum(1 for o in m["ops"] for e in o["evs"] if e["t"] == "leaf")
+        none = dict(kind="none", at=0)
+        # as it is; restarted; continued with new blocks; continued after a reorg of its last block
+        out.append(dict(base, ops=list(m["ops"])))
+        out.append(dict(base, ops=list(m["ops"]) + [dict(op="restart")]))
+        more = [dict(op="process", num=last + 2, fault=none, evs=[dict(t="leaf", x=100, dc=nleaf)]),
+                dict(op="process", num=last + 3, fault=none, evs=[dict(t="leaf", x=101, dc=nleaf + 1)] + ([dict(t="other")] if kind == "bridge" else []))]
+        out.append(dict(base, ops=list(m["ops"]) + more))
+        lastleaves = sum(1 for e in m["ops"][-1]["evs"] if e["t"] == "leaf")
+        out.append(dict(base, ops=list(m["ops"]) + [dict(op="reorg", **{"from": m["ops"][-1]["num"]}),
+                                                     dict(op="process", num=last + 1, fault=none, evs=[dict(t="leaf", x=102, dc=nleaf - lastleaves)])]))
+    return out
+
+
 def count_ops(behs):
     return sum(len(b["ops"]) for b in behs)
 
@@ -152,7 +182,8 @@ def store_check(prop, model_cfgs, gen_cfgs, quick_n, thorough_n, kinds_note, inv
                 behs += [sparsify(x, rng) if rng.random() < 0.5 else x for x in picked]
             if extra_behaviours:
                 behs += extra_behaviours(rng, thorough)
-            behs = reg + behs
+            fx = [b for k in sorted(set(b["kind"] for b in behs)) for b in fixture_behaviours(k, rng)]
+            behs = reg + fx + behs
         else:
             behs = rb
         drv = V.build_driver("store")
